@@ -1,0 +1,69 @@
+//go:build verif
+// +build verif
+
+package jmespath
+
+import (
+	"encoding/json"
+	"fmt"
+	"strconv"
+	"strings"
+)
+
+// VerifDumpAST renders an AST as a canonical s-expression
+// "(NodeType value child...)". It is compiled only with the "verif" build tag
+// and exists so that external verification harnesses can compare parses
+// structurally (PrettyPrint shows slice bounds as pointer addresses).
+func VerifDumpAST(n ASTNode) string {
+	var sb strings.Builder
+	verifDump(&sb, n)
+	return sb.String()
+}
+
+func verifDump(sb *strings.Builder, n ASTNode) {
+	sb.WriteString("(")
+	sb.WriteString(n.nodeType.String())
+	if n.value != nil {
+		sb.WriteString(" ")
+		switch v := n.value.(type) {
+		case string:
+			if n.nodeType == ASTLiteral {
+				sb.WriteString(verifJSON(v))
+			} else {
+				sb.WriteString(strconv.Quote(v))
+			}
+		case int:
+			sb.WriteString(strconv.Itoa(v))
+		case tokType:
+			sb.WriteString(v.String())
+		case []*int:
+			for i, p := range v {
+				if i > 0 {
+					sb.WriteString(":")
+				}
+				if p == nil {
+					sb.WriteString("_")
+				} else {
+					sb.WriteString(strconv.Itoa(*p))
+				}
+			}
+		default:
+			sb.WriteString(verifJSON(v))
+		}
+	} else if n.nodeType == ASTLiteral {
+		sb.WriteString(" null")
+	}
+	for _, c := range n.children {
+		sb.WriteString(" ")
+		verifDump(sb, c)
+	}
+	sb.WriteString(")")
+}
+
+func verifJSON(v interface{}) string {
+	b, err := json.Marshal(v)
+	if err != nil {
+		return fmt.Sprintf("<unmarshalable %T>", v)
+	}
+	return string(b)
+}
